@@ -136,7 +136,7 @@ func solveOne(e *Exec, o *Obligation, workDir string, timeoutS int) {
 		o.Status, o.Solver = "sat", "provenance"
 		return
 	}
-	file := filepath.Join(workDir, sanitize(o.Name)+".smt2")
+	file := filepath.Join(workDir, fileSafe(o.Name)+".smt2")
 	if len(file) > 200 {
 		file = file[:200] + ".smt2"
 	}
